@@ -22,6 +22,65 @@ macro_rules! scenario { ($ty:ty, $ins:expr, $count:expr) => {{
     // clone of a clone, swap, drop in the other order
     c = b.clone(); let mut d = c.clone(); std::mem::swap(&mut c, &mut d); drop(b); ins(&mut d, 41); drop(c); assert_eq!(count(&d), 41);
 }}; }
+/// widened: the other ways of cloning, moving, dropping, building and extending a store (kept small: Miri is slow)
+macro_rules! scenario2 { ($ty:ty, $ins:expr, $count:expr, $collect:expr, $extend:expr) => {{
+    let ins = $ins; let count = $count; let collect = $collect; let extend = $extend;
+    let mut a = <$ty>::new(); for k in 0..5 { ins(&mut a, k); }
+    // clone_from into a non-empty store, then drop the source
+    let mut b = <$ty>::default(); ins(&mut b, 30); b.clone_from(&a); assert_eq!(count(&b), 5);
+    // clone, then mutate the ORIGINAL heavily (its tables reallocate), then read everything from the clone
+    let c = a.clone(); for k in 5..40 { ins(&mut a, k); } assert_eq!(count(&c), 5); assert_eq!(count(&a), 40);
+    // Box / Rc / Arc / Vec / Option / Cow clones; the originals dropped first
+    let bx = Box::new(c); let bx2 = bx.clone(); drop(bx); assert_eq!(count(&bx2), 5);
+    let rc = std::rc::Rc::new(*bx2); let mut rc2 = std::rc::Rc::clone(&rc); ins(std::rc::Rc::make_mut(&mut rc2), 50); let un = std::rc::Rc::try_unwrap(rc).ok().unwrap(); drop(un); assert_eq!(count(&rc2), 6);
+    let ar = std::sync::Arc::new(std::rc::Rc::try_unwrap(rc2).ok().unwrap()); let mut ar2 = std::sync::Arc::clone(&ar); ins(std::sync::Arc::make_mut(&mut ar2), 51); drop(ar); assert_eq!(count(&ar2), 7);
+    let v = vec![std::sync::Arc::try_unwrap(ar2).ok().unwrap(); 2]; let mut v2 = v.clone(); v2.extend_from_slice(&v); drop(v); let mut v3 = v2[1..].to_vec(); v2.clear(); assert_eq!(v3.len(), 3);
+    let last = v3.pop().unwrap(); v3.truncate(0); let cw = std::borrow::Cow::Borrowed(&last).into_owned(); let op = Some(&cw).cloned().unwrap(); drop(last); drop(cw); assert_eq!(count(&op), 7);
+    // take / replace / swap, then grow what was moved
+    let mut t = op; let mut moved = std::mem::take(&mut t); assert_eq!(count(&t), 0); ins(&mut t, 1); let old = std::mem::replace(&mut moved, t); std::mem::swap(&mut moved, &mut b); drop(moved); for k in 60..70 { ins(&mut b, k); } assert_eq!(count(&old), 7); drop(old);
+    // build a store from the statements of a live one, extend another from it, drop the source, read both
+    let built = collect(&a); let mut ext = <$ty>::new(); ins(&mut ext, 2); extend(&mut ext, &a); drop(a); assert_eq!(count(&built), 40); assert_eq!(count(&ext), 40);
+    // a clone on another thread, the original dropped here meanwhile
+    let h = { let c2 = built.clone(); std::thread::spawn(move || { let mut c2 = c2; ins(&mut c2, 80); count(&c2) }) }; drop(built); assert_eq!(h.join().unwrap(), 41);
+}}; }
+type LGU = sophia_inmem::graph::GenericLightGraph<SimpleTermIndex<usize>>;
+type SFD = sophia_inmem::dataset::small::FastDataset;
+fn widened() {
+    use sophia_api::graph::CollectibleGraph; use sophia_api::dataset::CollectibleDataset;
+    scenario2!(FastGraph, |g: &mut FastGraph, k: usize| { let t = terms(k); g.insert(&t[0], &t[1], &t[2]).unwrap(); }, |g: &FastGraph| g.triples().map(|t| format!("{:?}", t.unwrap())).count(),
+        |g: &FastGraph| FastGraph::from_triple_source(g.triples()).unwrap(), |d: &mut FastGraph, g: &FastGraph| { d.insert_all(g.triples()).unwrap(); });
+    scenario2!(LGU, |g: &mut LGU, k: usize| { let t = terms(k); g.insert(&t[0], &t[1], &t[2]).unwrap(); }, |g: &LGU| g.triples().map(|t| format!("{:?}", t.unwrap())).count(),
+        |g: &LGU| g.triples().collect_triples::<LGU>().unwrap(), |d: &mut LGU, g: &LGU| { d.insert_all(g.triples()).unwrap(); });
+    // datasets: every other quad in the default graph
+    scenario2!(SFD, |g: &mut SFD, k: usize| { let t = terms(k); g.insert(&t[0], &t[1], &t[2], if k % 2 == 0 { None } else { Some(&t[1]) }).unwrap(); }, |g: &SFD| g.quads().map(|q| format!("{:?}", q.unwrap())).count(),
+        |g: &SFD| SFD::from_quad_source(g.quads()).unwrap(), |d: &mut SFD, g: &SFD| { d.insert_all(g.quads()).unwrap(); });
+    scenario2!(LightDataset, |g: &mut LightDataset, k: usize| { let t = terms(k); g.insert(&t[0], &t[1], &t[2], if k % 2 == 0 { None } else { Some(&t[1]) }).unwrap(); }, |g: &LightDataset| g.quads().map(|q| format!("{:?}", q.unwrap())).count(),
+        |g: &LightDataset| g.quads().collect_quads::<LightDataset>().unwrap(), |d: &mut LightDataset, g: &LightDataset| { d.insert_all(g.quads()).unwrap(); });
+    // terms whose accessors return OWNED strings (native literals): the owned branch of ensure_owned; clone, grow and drop the original, read the clone
+    let mut g = FastGraph::new(); for k in 0..6i32 { g.insert(k, iri("http://example.org/p"), format!("value {k}").as_str()).unwrap(); g.insert(k, iri("http://example.org/p"), k as f64 + 0.5).unwrap(); }
+    let c = g.clone(); for k in 6..30i32 { g.insert(k, iri("http://example.org/p"), true).unwrap(); } drop(g); assert_eq!(c.triples().map(|t| format!("{:?}", t.unwrap())).count(), 12);
+    // bare indexes: new(), clone_from, take, collect by re-interning the terms of a live index, capacity-limited index that fills up
+    let mut ix = SimpleTermIndex::<usize>::new(); for k in 0..4 { for t in terms(k) { ix.ensure_index(&t).unwrap(); } }
+    let mut iy = SimpleTermIndex::<usize>::new(); iy.ensure_index(&terms(9)[0]).unwrap(); iy.clone_from(&ix);
+    let mut iz = SimpleTermIndex::<u32>::default(); for i in 0..ix.len() { iz.ensure_index(ix.get_term(i)).unwrap(); }
+    let moved = std::mem::take(&mut ix); drop(ix); for k in 4..12 { for t in terms(k) { iy.ensure_index(&t).unwrap(); } } drop(iy);
+    for i in 0..moved.len() { assert!(Term::eq(moved.get_term(i), iz.get_term(i as u32))); let _ = format!("{:?}", moved.get_term(i)); }
+    let mut small = SimpleTermIndex::<SmallIdx<6>>::new(); let mut full = false; for k in 0..4 { for t in terms(k) { if small.ensure_index(&t).is_err() { full = true; } } } assert!(full);
+    let sc = small.clone(); drop(small); for i in 0..sc.len() { let _ = format!("{:?}", sc.get_term(SmallIdx(i as u8))); }
+    // static-clone: terms cloned (Clone::clone) out of a graph / a dataset / an index and a clone of it are values of type
+    // SimpleTerm<'static>: they are read after the stores are gone (a use-after-free while the index table borrowed its text)
+    let mut kept: Vec<ST> = vec![];
+    { let mut g = FastGraph::new(); for k in 0..6 { let t = terms(k); g.insert(&t[0], &t[1], &t[2]).unwrap(); }
+      let c = g.clone(); kept.extend(g.triples().flat_map(|t| { let t = t.unwrap(); [t[0].clone(), t[1].clone(), t[2].clone()] })); drop(g);
+      kept.extend(c.triples().map(|t| t.unwrap()[2].clone())); }
+    { let mut d = LightDataset::new(); for k in 0..6 { let t = terms(k); d.insert(&t[0], &t[1], &t[2], Some(&t[0])).unwrap(); }
+      kept.extend(d.quads().flat_map(|q| { let (g, t) = q.unwrap(); [g.unwrap().clone(), t[2].clone()] })); }
+    { let mut ix = SimpleTermIndex::<u16>::new(); for k in 0..6 { for t in terms(k) { ix.ensure_index(&t).unwrap(); } }
+      let iy = ix.clone(); kept.extend((0..ix.len()).map(|i| ix.get_term(i as u16).clone())); drop(ix); kept.extend((0..iy.len()).map(|i| iy.get_term(i as u16).clone())); }
+    let junk: Vec<String> = (0..64).map(|k| format!("http://example.org/subject/with/a/long/path/{k}")).collect();
+    let n: usize = kept.iter().map(|t| format!("{t:?}").len()).sum(); assert!(n > 0); drop(junk);
+    let again: Vec<ST> = kept.iter().map(|t| t.clone()).collect(); drop(kept); for t in &again { assert!(Term::eq(t, t.clone())); }
+}
 fn main() {
     scenario!(FastGraph, |g: &mut FastGraph, k: usize| { let t = terms(k); g.insert(&t[0], &t[1], &t[2]).unwrap(); }, |g: &FastGraph| g.triples().map(|t| { let t = t.unwrap(); t.s().is_iri() as usize + t.o().lexical_form().map(|l| l.len()).unwrap_or(0) * 0 }).count());
     scenario!(LightGraph, |g: &mut LightGraph, k: usize| { let t = terms(k); g.insert(&t[0], &t[1], &t[2]).unwrap(); }, |g: &LightGraph| g.triples().map(|t| t.unwrap().o().kind()).count());
@@ -29,5 +88,6 @@ fn main() {
     scenario!(LightDataset, |g: &mut LightDataset, k: usize| { let t = terms(k); g.insert(&t[0], &t[1], &t[2], Some(&t[1])).unwrap(); }, |g: &LightDataset| g.quads().map(|q| format!("{:?}", q.unwrap().o())).count());
     let mut ix = SimpleTermIndex::<u16>::default(); for k in 0..5 { for t in terms(k) { ix.ensure_index(&t).unwrap(); } }
     let iy = ix.clone(); drop(ix); for i in 0..iy.len() { let _ = format!("{:?}", iy.get_term(i as u16)); }
+    widened();
     println!("c10_miri: scenarios completed");
 }
